@@ -106,6 +106,8 @@ package ctree
 //@   allocates Tree
 //@   ensures [tree-stays-wf] TreeWf()
 //@   ensures [leaf-is-not-crossed C09] old(IsLeaf(t)) ==> res0 != nil
+//@   ensures [anything-but-a-leaf-is-descended-into C09] !old(IsLeaf(t)) ==> hits("call (*Tree).Add#0") == old(hits("call (*Tree).Add#0")) + 1
+//@   assert at call newBranch#0: [new-child-holds-the-rest-of-the-path C09] view(arg0) == Tail(path) && arg1 == value
 //@   assert at call (*Tree).Add#0: [existing-child-is-kept C10 C09] arg0 != nil && IsBranch(t) && has(Kids(t), path[0]) && arg0 == Kids(t)[path[0]]
 //@     && (old(IsBranch(t)) && old(has(Kids(t), path[0])) ==> arg0 == old(Kids(t)[path[0]]))
 //@     && (old(IsBranch(t)) ==> (forall k string :: old(has(Kids(t), k)) ==> has(Kids(t), k) && Kids(t)[k] == old(Kids(t)[k])))
@@ -139,6 +141,7 @@ package ctree
 //@   requires t != nil && TreeWf()
 //@   ensures [empty-path-is-the-node C09] len(path) == 0 ==> res0 == t
 //@   ensures [no-such-child C09] len(path) > 0 && (!IsBranch(t) || !has(Kids(t), path[0])) ==> res0 == nil
+//@   ensures [an-existing-child-is-entered C09] len(path) > 0 && IsBranch(t) && has(Kids(t), path[0]) && Kids(t)[path[0]] != nil ==> hits("call (*Tree).Get#0") == old(hits("call (*Tree).Get#0")) + 1
 //@   assert at call (*Tree).Get#0: [descend-under-read-lock C10 C09] rheld(t.mu) && arg0 != nil && arg0 == Kids(t)[path[0]] && view(arg1) == Tail(path)
 
 //@ func (*Tree).GetLeaf
@@ -171,6 +174,9 @@ package ctree
 //@   effect visitedT := union1(visitedT, t)
 //@   modifies ghost visitedT, ghost visits, ghost lastVisited, elems(prefix)
 //@   ensures [visited-grows] forall x ref :: old(visitedT[x]) || x == t ==> visitedT[x]
+//@   ensures [glob-or-end-enumerates C09 C05] len(path) == 0 || path[0] == "*" ==> hits("call (*Tree).enumerateChildren#0") == old(hits("call (*Tree).enumerateChildren#0")) + 1
+//@   ensures [named-child-is-entered C09 C05] len(path) > 0 && path[0] != "*" && IsBranch(t) && has(Kids(t), path[0]) && Kids(t)[path[0]] != nil
+//@     ==> hits("call (*Tree).queryInternal#0") == old(hits("call (*Tree).queryInternal#0")) + 1
 //@   assert at call (*Tree).enumerateChildren#0: rheld(t.mu) && arg0 == t && arg1 == prefix && arg2 == path && (len(path) == 0 || path[0] == "*")
 //@   assert at call (*Tree).queryInternal#0: [named-step C09 C10] rheld(t.mu) && len(path) > 0 && path[0] != "*" && arg0 != nil && arg0 == Kids(t)[path[0]]
 //@     && view(arg1) == view(prefix) ++ unit(path[0]) && view(arg2) == Tail(path)
